@@ -947,7 +947,12 @@ impl AsnDefWriter {
                 (extended_field, field)
             })
             .collect::<Vec<_>>();
-        fields.sort_by(|a, b| (a.0, &a.1.tag).cmp(&(b.0, &b.1.tag)));
+        // only the extension root is sorted canonically (ITU-T X.691 | ISO/IEC 8825-2:2015, chapter 21.1),
+        // extension additions keep the order of their definition (stable sort): a later version that
+        // appends an addition with a smaller tag must not change the position of the existing ones
+        fields.sort_by(|a, b| {
+            (a.0, (!a.0).then_some(&a.1.tag)).cmp(&(b.0, (!b.0).then_some(&b.1.tag)))
+        });
         fields.into_iter().map(|(_, field)| field).collect()
     }
 }
